@@ -169,7 +169,7 @@ func checkC10(c *Ctx) (int, error) {
 	}
 	c.ev.Rule = fmt.Sprintf("every history of %d calls over {Write(0|small|large), Flush} with at least one Flush (TLC, WriterModel), followed by Write(1) and Close, each on %d of %d settings (flate/gzip/zlib, levels -2..9, both windows, dictionaries); every Flush event is judged; distinct by (concrete history, setting)", maxLen, per, len(allWSettings))
 	c.ev.Exhaustive = true
-	for _, cs := range cases[:minInt(3, len(cases))] {
+	for _, cs := range spread(cases) {
 		c.ev.sample(map[string]interface{}{"history": histString(cs.Ops), "setting": cs.Tag, "data": cs.Data})
 	}
 	return c.writerRun("c10", c.spreadArch(cases, false), true)
@@ -241,7 +241,7 @@ func checkC01(c *Ctx) (int, error) {
 	}
 	c.ev.Rule = fmt.Sprintf("every history of %d calls over {Write(0|small|large), Flush} then Close (TLC, WriterModel) on %d of %d flate settings (levels -2..9, default, 4K window, dictionaries) at EVERY acceleration level, plus %d long multi-slide inputs; non-trivial = non-empty data; distinct by (history, setting, data class)", maxLen, per, len(flateOnly), nLong)
 	c.ev.Exhaustive = true
-	for _, cs := range cases[:minInt(3, len(cases))] {
+	for _, cs := range spread(cases) {
 		c.ev.sample(map[string]interface{}{"history": histString(cs.Ops), "setting": cs.Tag, "data": cs.Data})
 	}
 	return c.writerRun("c01", c.spreadArch(cases, true), true)
@@ -390,7 +390,7 @@ func checkC09(c *Ctx) (int, error) {
 	}
 	c.ev.Rule = fmt.Sprintf("every triple (flush positions <= %d, cuts A <= %d, cuts B <= %d, A # B) over %d units (TLC, PartitionGen), mapped to byte offsets, with random empty writes, on the 8 accelerated settings in rotation; plus 1-byte-writes against one write; distinct by (both op lists, setting)", mf, mc, mc, u)
 	c.ev.Exhaustive = true
-	for _, cs := range cases[:minInt(3, len(cases))] {
+	for _, cs := range spread(cases) {
 		c.ev.sample(map[string]interface{}{"a": histString(cs.Ops), "b": histString(cs.Shadow), "setting": cs.Tag, "data": cs.Data})
 	}
 	return c.writerRun("c09", c.spreadArch(cases, false), false)
@@ -460,7 +460,7 @@ func checkC12(c *Ctx) (int, error) {
 	}
 	c.ev.Rule = fmt.Sprintf("every history of %d calls over {Write(small|large), Flush, Close, Reset} with one or two Resets (also back to back) the last of which is followed by a history ending in Close (TLC, WriterModel), on %d of %d settings; one third with a destination failure inside h1; the bytes after Reset are compared with a fresh Writer's; distinct by (history, setting, failure)", maxLen, per, len(allWSettings))
 	c.ev.Exhaustive = true
-	for _, cs := range cases[:minInt(3, len(cases))] {
+	for _, cs := range spread(cases) {
 		c.ev.sample(map[string]interface{}{"history": histString(cs.Ops), "setting": cs.Tag, "failat": cs.FailAt})
 	}
 	return c.writerRun("c12", c.spreadArch(cases, false), true)
